@@ -7,7 +7,8 @@ FUNCTIONS = [{'q': 'uxarray.grid.connectivity.close_face_nodes',
     'uxarray.io._mpas._parse_face_edges@primal',
     'uxarray.io._mpas._parse_face_edges@dual',
     'uxarray.io._mpas._parse_edge_nodes@primal',
-    'uxarray.io._mpas._parse_edge_nodes@dual']
+    'uxarray.io._mpas._parse_edge_nodes@dual',
+    'uxarray.grid.connectivity._populate_edge_node_connectivity']
 STANDINS = ["edges"]
 ASSUMPTIONS = []
 EXPLANATION = "builders under contract + bounded stand-in (catalogue meshes, exhaustive small tables, access orders)"
